@@ -224,6 +224,10 @@ class JsonResource(Resource):
                     # only the reference back to the container is implied
                     ereferences.append((feature, value))
         self.process_inst(inst, eattributes)
+        for feature, value in eattributes:
+            if feature.iD and value is not None:
+                # references are written with the id attribute's value
+                self.uuid_dict[value] = inst
         self.process_inst(inst, containments, owning_feature)
         if ereferences:
             self._load_href[inst] = ereferences
